@@ -9,6 +9,7 @@ import (
 	crand "crypto/rand"
 	"fmt"
 	"io"
+	"math"
 	"os"
 	"strings"
 	"sync"
@@ -39,9 +40,8 @@ func TestVerifRace(t *testing.T) {
 	// expectations come from a separate, identical set of values: the shared ones
 	// must meet their first use under concurrency
 	ref := h14Setup()
-	crAlpha, crReqs, _ := h02Ref(ref.cr)
 	sfAlpha, sfReqs, _ := h02Ref(ref.sfRec)
-	crEnt, wrEnt := ref.cr.Entropy(), ref.wr.Entropy()
+	wrEnt := ref.wr.Entropy()
 	words := append([]string(nil), ref.wl.words...)
 	var bad int64
 	var firstBad atomic.Value
@@ -78,6 +78,17 @@ func TestVerifRace(t *testing.T) {
 	const R, G, N = 24, 8, 60
 	for round := 0; round < R; round++ {
 		s := h14Setup()
+		// the character recipe differs from round to round by one allowed
+		// character: state the library keeps per character settings (a cache
+		// entry, a lazily sorted alphabet) meets its first use under contention
+		// in every round, not only in the first one of the process
+		s.cr.AllowChars += string([]rune("αβγδεζηθικλμνξοπρστυφχψω")[round%24])
+		crAlpha, crReqs, _ := h02Ref(s.cr)
+		var crEntBits uint32 // the first Entropy value seen in this round; all must agree
+		sameEnt := func(e float32) bool {
+			b := math.Float32bits(e) | 1<<31
+			return atomic.CompareAndSwapUint32(&crEntBits, 0, b) || atomic.LoadUint32(&crEntBits) == b
+		}
 		start := make(chan struct{})
 		var wg sync.WaitGroup
 		for g := 0; g < G; g++ {
@@ -89,11 +100,11 @@ func TestVerifRace(t *testing.T) {
 					switch (g + i) % 5 {
 					case 0:
 						p, err := s.cr.Generate()
-						if err == nil && (!validChars(p.String(), crAlpha, crReqs, s.cr.Length) || p.Entropy != crEnt) {
+						if err == nil && (!validChars(p.String(), crAlpha, crReqs, s.cr.Length) || !sameEnt(float32(p.Entropy))) {
 							fail("character password %q does not satisfy its recipe under concurrency", p.String())
 						}
 					case 1:
-						if s.cr.Entropy() != crEnt || s.cr.Alphabet() != strings.Join(crAlpha, "") {
+						if !sameEnt(float32(s.cr.Entropy())) || s.cr.Alphabet() != strings.Join(crAlpha, "") {
 							fail("Entropy()/Alphabet() changed under concurrency")
 						}
 						s.cr.SuccessProbability()
